@@ -14,7 +14,10 @@ from . import _godev_util as gu
 PKG = './cmd/telemetrygodev'
 TEST = 'TestVerifC12'
 PAD = '@@PAD@@'
-PATHS = ['/upload/', '/upload/2000-01-01/9.json', '/upload/1999-12-31/0.25.json', '/upload/x', '/upload/2023-01-01/0.5.json']
+PATH_TEXT = {'root': '/upload/', 'named': '/upload/2000-01-01/9.json', 'dotdot': '/upload/..%2F..%2Fx.json', 'deep': '/upload/a/b/c/d.json',
+             'query': '/upload/?Week=..%2Fx&X=9'}
+PATHS = sorted(PATH_TEXT.values()) + ['/upload/1999-12-31/0.25.json', '/upload/x', '/upload/2023-01-01/0.5.json', '/upload/%2e%2e/%2e%2e/x', '/upload/%00']
+LW_TEXT = {0: '', 1: '2022-12-25', 2: '日本語 \u2028 é ü', 3: '<script>&amp;"\\\'</script>', 4: '../../x'}
 
 # must equal the constants of spec/ServerMC.tla (checked against the JSON TLC writes)
 DEFAULT_CONFIG = {
@@ -65,16 +68,16 @@ WEEK_TEXT = {
     'trailpath': '2023-01-01/../../x', 'dotdot': '../x', 'dotdot3': '../../../x', 'dot': '.', 'abs': '/tmp/c12-x',
     'lead': ' 2023-01-01', 'trailnl': '2023-01-01\n', 'nul': '2023-01-01\x00', 'time': '2023-01-01T00:00:00Z',
     'five': '02023-01-01', 'two': '23-01-01', 'compact': '20230101', 'dmy': '01-01-2023',
-    'fullwidth': '２０２３-０１-０１', 'word': 'week',
+    'fullwidth': '２０２３-０１-０１', 'word': 'week', 'long': '2023-01-01' + 'x' * 4990, 'percent': '%s%d%!v(MISSING)%n%',
 }
 NUM_TEXT = {'lead0': '01', 'empty': '', 'bad': 'latest'}
 PRE_TEXT = {'none': '', 'ok': '-rc.1', 'lead0': '-01', 'empty': '-', 'bad': '-a_b'}
 BUILD_TEXT = {'none': '', 'ok': '+build.5', 'empty': '+', 'bad': '+a_b'}
-COUNTER_VALUES = [1, 7, 9007199254740993, -3, 0, 123456]
+COUNTER_VALUES = [1, 7, 9007199254740993, -3, 0, 123456, 9223372036854775807, -9223372036854775808]
 
 
 def week_text(w):
-    if w['shape'] == 'iso':
+    if w['shape'] in ('iso', 'isoesc'):
         return '%04d-%02d-%02d' % (w['y'], w['m'], w['d'])
     if w['shape'] == 'absent':
         return None
@@ -97,19 +100,33 @@ def stack_text(s):
 
 
 class RawNum(str):
-    """A JSON number literal to be written verbatim."""
+    """A JSON number literal (or any JSON text) to be written verbatim."""
+
+
+def escaped_json_string(t):
+    """t as a JSON string in which every second character is a \\uXXXX escape"""
+    return RawNum('"' + ''.join(('\\u%04x' % ord(c)) if i % 2 == 0 else c for i, c in enumerate(t)) + '"')
 
 
 def program_obj(p):
     if p['nil']:
         return None
     o = {'Program': p['program'], 'Version': p['version'], 'GoVersion': p['goversion'], 'GOOS': p['goos'], 'GOARCH': p['goarch']}
+    if p['program'] == '':
+        # a partial program object: absent keys instead of empty strings
+        o = {k: v for k, v in o.items() if v != ''}
+    # an empty map is written in one of three ways: key absent, {}, null
+    how = (len(p['version']) + len(p['goos']) + len(p['goarch'])) % 3
     cs = sorted(p['counters'])
     if cs:
-        o['Counters'] = {c: COUNTER_VALUES[i % len(COUNTER_VALUES)] for i, c in enumerate(cs)}
+        o['Counters'] = {c: COUNTER_VALUES[(i + how) % len(COUNTER_VALUES)] for i, c in enumerate(cs)}
+    elif how:
+        o['Counters'] = {} if how == 1 else None
     ss = sorted(stack_text(s) for s in p['stacks'])
     if ss:
         o['Stacks'] = {s: i + 1 for i, s in enumerate(ss)}
+    elif how == 2:
+        o['Stacks'] = {}
     return o
 
 
@@ -118,10 +135,10 @@ def report_fields(r):
     f = []
     w = week_text(r['week'])
     if w is not None:
-        f.append(('Week', w))
-    lw = '2022-12-25' if r.get('tag') else ''
+        f.append(('Week', escaped_json_string(w) if r['week']['shape'] == 'isoesc' else w))
+    lw = LW_TEXT[r.get('tag') or 0]
     if r.get('pad') == 'lastweek':
-        lw = PAD
+        lw = lw + PAD
     f.append(('LastWeek', lw))
     if r['x']['lit'] != 'absent':
         f.append(('X', RawNum(r['x']['lit'])))
@@ -131,6 +148,22 @@ def report_fields(r):
         f.append(('Programs', [program_obj(p) for p in r['programs']]))
     f.append(('Config', config_text(r['config'])))
     return f
+
+
+def pretty(v, ind=1):
+    """JSON text laid out the other way: CRLF line ends, tab indentation, blanks around colons"""
+    nl = '\r\n' + '\t' * ind
+    if isinstance(v, RawNum):
+        return str(v)
+    if isinstance(v, dict):
+        if not v:
+            return '{ }'
+        return '{' + nl + (',' + nl).join(json.dumps(k, ensure_ascii=False) + ' : ' + pretty(x, ind + 1) for k, x in v.items()) + '\r\n' + '\t' * (ind - 1) + '}'
+    if isinstance(v, list):
+        if not v:
+            return '[ ]'
+        return '[' + nl + (',' + nl).join(pretty(x, ind + 1) for x in v) + '\r\n' + '\t' * (ind - 1) + ']'
+    return json.dumps(v, ensure_ascii=False)
 
 
 def dumps(v):
@@ -143,7 +176,11 @@ def dumps(v):
     return json.dumps(v)
 
 
-def fields_json(fields):
+def fields_json(fields, layout='compact'):
+    if layout == 'reversed':
+        fields = list(reversed(fields))
+    if layout == 'pretty':
+        return (' \r\n' + pretty(dict(fields)) + '\r\n').replace('\r\n}\r\n', '\r\n}').encode('utf-8')
     return ('{' + ','.join(json.dumps(k) + ':' + dumps(v) for k, v in fields) + '}').encode('utf-8')
 
 
@@ -175,7 +212,7 @@ PAD_TARGET = {'lim-1': (1, -1), 'lim': (1, 0), 'lim+1': (1, 1), '3lim': (3, 0)}
 
 def concretize(r, idx=0):
     """abstract request (TLA+ record as dict) -> harness step"""
-    step = {'method': r['method'], 'path': PATHS[idx % len(PATHS)]}
+    step = {'method': r['method'], 'path': PATH_TEXT[r['path']] if r.get('path') in PATH_TEXT else PATHS[idx % len(PATHS)]}
     pad = None
     if r['kind'] == 'garbage':
         if r['gshape'] not in GARBAGE:
@@ -187,7 +224,7 @@ def concretize(r, idx=0):
             body = body + PAD.encode()
             pad = 'x'
     else:
-        body = fields_json(report_fields(r))
+        body = fields_json(report_fields(r), r.get('layout', 'compact'))
         if r['pad'] == 'lastweek':
             pad = 'w'
         elif r['pad'] == 'lead':
@@ -236,7 +273,7 @@ def devclass(r, dec=None):
         out.append('method')
     if r.get('lenc', 'small') in ('lim+1', '3lim') or r.get('toolarge'):
         out.append('oversize' if r.get('declared', True) else 'oversize-undeclared-length')
-    if r['week']['shape'] != 'iso':
+    if r['week']['shape'] not in ('iso', 'isoesc'):
         out.append('week-shape')
     elif not valid_date(r['week']['y'], r['week']['m'], r['week']['d']):
         out.append('week-date')
@@ -348,10 +385,11 @@ def judge(ctx, r, dec, obs, prior, prefix, where):
 
 
 def ndev(req, primary):
-    """in how many of the six fields a report request differs from the primary one"""
+    """in how many of the nine fields a report request differs from the primary one"""
     if req['kind'] != 'report':
         return 0
-    n = sum(1 for f in ('method', 'week', 'config', 'x') if req[f] != primary[f])
+    n = sum(1 for f in ('method', 'week', 'config', 'x', 'path', 'layout') if req[f] != primary[f])
+    n += req['tag'] != 0
     n += (req['pform'], req['programs']) != (primary['pform'], primary['programs'])
     n += (req['lenc'], req['pad'], req['declared']) != (primary['lenc'], primary['pad'], primary['declared'])
     return n
@@ -560,6 +598,8 @@ class Gen:
         if k < 0.16:
             return 'null', []
         n = r.choice([0, 1, 1, 1, 2, 2, 3])
+        if r.random() < 0.03:
+            n = r.randint(30, 120)      # many program entries
         ps = [self.program() for _ in range(n)]
         if r.random() < 0.06:
             ps.insert(r.randint(0, len(ps)), {'nil': True, 'program': '', 'version': '', 'goversion': '', 'goos': '', 'goarch': '', 'counters': [], 'stacks': []})
@@ -586,7 +626,7 @@ class Gen:
         fields = []
         if wt is not None:
             fields.append(('Week', wt))
-        lastweek = r.choice(['', '', '2022-12-25', '../../x', 'x' * r.randint(1, 50)])
+        lastweek = r.choice(['', '', '2022-12-25', '../../x', 'x' * r.randint(1, 50), LW_TEXT[2], LW_TEXT[3], 'tab\there \u00e9\u0000 nul'])
         sizecls = 'small'
         k = r.random()
         pad = None
@@ -609,7 +649,7 @@ class Gen:
             fields.append(('Config', ct))
         if r.random() < 0.3:
             r.shuffle(fields)
-        body = fields_json(fields)
+        body = fields_json(fields, 'pretty' if r.random() < 0.15 else 'compact')
         if pad is None and r.random() < 0.03:
             body = PAD.encode() + body
             pad = {'mul': 1, 'add': r.choice([-1, 0, 1, 50]), 'char': r.choice([' ', '\n', '\t'])}
@@ -778,10 +818,15 @@ def run(ctx):
         behs, meta = [], []
         for (req, dec) in chunk:
             # requests that deviate in 3 fields (thorough tier only) run on the empty bucket only
-            for b0 in (('empty', 'prepop') if ndev(req, primary) <= 2 else ('empty',)):
+            nd = ndev(req, primary)
+            side = (req.get('path'), req.get('layout'), req.get('tag')) != ('root', 'compact', 0)
+            # on the pre-populated bucket too: up to 2 deviations, unless two deviate and one of them is path / layout / LastWeek
+            # ... and, of the refused two-deviation requests, every second one (alternating with the enumeration order)
+            both = nd <= 1 or (nd == 2 and not side and (dec != 'reject' or len(behs) % 4 < 2))
+            for b0 in (('empty', 'prepop') if both else ('empty',)):
                 pre = inits[b0]
                 steps = [concretize(p, i) for i, p in enumerate(pre)] + [concretize(req, len(behs))]
-                behs.append({'id': len(behs), 'steps': steps})
+                behs.append({'id': len(behs), 'steps': steps, 'fresh': len(behs) % 7 == 3})
                 meta.append((req, dec, pre, b0))
         recs, rc, out = ctx.run_harness(PKG, TEST, inp={'config': cfgjson, 'behaviours': behs}, module_dir='godev', timeout=2400, env=henv)
         summ = gu.summary_of(recs, out, 'C12 vectors')
@@ -819,8 +864,8 @@ def run(ctx):
     for st in tlaval.read_dump(r.dump):
         req, dec = st['req'], st['dec']
         nseen += 1
-        # thorough tier: of the requests that deviate in 3 fields every second one is replayed (which half depends on the seed)
-        if K >= 3 and (nseen + ctx.seed) % 2 and ndev(req, primary) >= 3:
+        # thorough tier: of the requests that deviate in 3 fields every third one is replayed (which third depends on the seed)
+        if K >= 3 and (nseen + ctx.seed) % 3 and ndev(req, primary) >= 3:
             nskipped += 1
             continue
         by_dec[dec] += 1
@@ -855,7 +900,7 @@ def run(ctx):
         pre = inits[states[0]['b0']]
         reqs = [(s['last'], 'store' if s['stored'] else 'reject') for s in states[1:]]
         steps = [concretize(p, i) for i, p in enumerate(pre)] + [concretize(q, i) for i, (q, _d) in enumerate(reqs)]
-        behs.append({'id': len(behs), 'steps': steps})
+        behs.append({'id': len(behs), 'steps': steps, 'fresh': len(behs) % 2 == 1})
         meta.append((pre, reqs, states))
     recs, rc, out = ctx.run_harness(PKG, TEST, inp={'config': cfgjson, 'behaviours': behs}, module_dir='godev', timeout=2400, env=henv)
     summ = gu.summary_of(recs, out, 'C12 histories')
@@ -905,7 +950,7 @@ def run(ctx):
             a, st = g.request()
             steps.append(st)
             ab.append(a)
-        behs.append({'id': h, 'steps': steps})
+        behs.append({'id': h, 'steps': steps, 'fresh': h % 3 == 1})
         absts.append(ab)
     recs, rc, out = ctx.run_harness(PKG, TEST, inp={'config': cfgjson, 'behaviours': behs}, module_dir='godev', timeout=2400, env=henv)
     summ = gu.summary_of(recs, out, 'C12 random')
@@ -956,7 +1001,7 @@ def run(ctx):
         h, i, a, o, stp = [x for x in origin if x and x[3].get('status') == 200][0]
         ctx.sample({'kind': 'observation', 'text': a.get('_text'), 'method': a['method'], 'status': o.get('status'), 'created': o.get('created')})
     ctx.cov['rule'] = ('vectors = every request deviating from a valid primary request in <= %d of {method, week, config, X, programs, size (length class x padding place x length declared or not)} plus every '
-                       'garbage body class, each on an empty and (for <= 2 deviations) on a pre-populated bucket; histories = TLC -simulate walks of Server.tla; random = '
+                       'garbage body class, each on an empty bucket and (all <= 1-deviation requests, all accepted and half of the refused 2-deviation requests in the 6 decision fields) on a pre-populated bucket; histories = TLC -simulate walks of Server.tla; random = '
                        'seeded random reports/garbage abstracted by independent tokenizers and decided by TLC (ServerTrace); distinct = distinct '
                        'request vectors + histories' % K)
     ctx.cov['distinct_nontrivial'] = ndistinct + len(meta) + nh
